@@ -154,6 +154,8 @@ class HistGen:
             weights.update(reopen=10, rebuild=10, xput=6, delete=20)
         if f == 'C18':
             weights.update(remove=18, vanish=8, resubmit=15)
+        if f == 'C13':
+            weights.update(vanish=10, remove=12, delete=14, rebuild=0, reopen=0, xput=0)
         if f == 'C04':
             weights.update(store=60, reopen=6)
         ops = list(weights)
